@@ -1,0 +1,57 @@
+//go:build verif
+
+package vgirpc
+
+import (
+	"reflect"
+
+	"github.com/apache/arrow-go/v18/arrow"
+)
+
+// Verification hooks (build tag "verif") for the pipe-session framing check.
+// Add-only read access to the method registry; nothing here is compiled into
+// normal builds.
+
+// VerifC02Method is the part of a registered method the dispatch path looks at.
+type VerifC02Method struct {
+	Name         string
+	Kind         string // "unary", "producer", "exchange", "dynamic"
+	ParamsSchema *arrow.Schema
+	HasResult    bool
+	HasHeader    bool
+	InputSchema  *arrow.Schema // nil when the method registered none
+}
+
+// VerifC02Methods returns the registered methods sorted by name. ParamsSchema
+// is the schema deserializeParams compares the request batch with.
+func VerifC02Methods(s *Server) []VerifC02Method {
+	var out []VerifC02Method
+	for _, name := range s.availableMethods() {
+		info := s.methods[name]
+		kind := "unary"
+		switch info.Type {
+		case MethodProducer:
+			kind = "producer"
+		case MethodExchange:
+			kind = "exchange"
+		case MethodDynamic:
+			kind = "dynamic"
+		}
+		t := info.ParamsType
+		for t.Kind() == reflect.Ptr {
+			t = t.Elem()
+		}
+		out = append(out, VerifC02Method{
+			Name:         name,
+			Kind:         kind,
+			ParamsSchema: describeStruct(t).Schema,
+			HasResult:    info.ResultType != nil,
+			HasHeader:    info.HasHeader,
+			InputSchema:  info.InputSchema,
+		})
+	}
+	return out
+}
+
+// VerifC02DescribeSchema returns the schema of the __describe__ response batch.
+func VerifC02DescribeSchema() *arrow.Schema { return describeSchema }
